@@ -13,6 +13,13 @@ MCWFItems == {"A", "B", "C"}
 MCAddrs   == {"inA", "inB", "out4", "inC", "out6", "zoneC"}
 MCZoned   == {"zoneC"}
 MCMember  == {<<"inA", "A">>, <<"inB", "B">>, <<"inC", "C">>, <<"zoneC", "C">>}
+\* nested / overlapping blocks: An = a narrower block inside A with the SAME network address, Ah = that network
+\* address as a host entry, Cn = a narrower block inside C; addresses inside the narrow ones
+MCItemsNest   == {"A", "An", "Ah", "C", "Cn"}
+MCWFItemsNest == MCItemsNest
+MCAddrsNest   == {"inA", "inAn", "isAh", "out4", "inC", "inCn"}
+MCMemberAll   == MCMember \cup {<<"inAn", "A">>, <<"inAn", "An">>, <<"isAh", "A">>, <<"isAh", "An">>, <<"isAh", "Ah">>,
+                                 <<"inCn", "C">>, <<"inCn", "Cn">>}
 MCSchemes == {"", "basic1", "nosuch"}
 MCKnown   == {"basic1"}
 MCCreds   == {"none", "good", "bad", "malformed"}
@@ -25,6 +32,7 @@ MCPresLong == {0, 1, 2, 15, 16, 17, 40, 200}
 MCSufsLong == {0, 1, 20}
 MCSufsShort == {0, 1}
 MCFillsOne == {"out4"}
+MCFillsNest == {"out4"}
 MCFillsAll == MCAddrs
 MCFillsSome == {"inA", "out4", "zoneC"}
 MCHttp == {"http"}
